@@ -79,8 +79,11 @@ func BadComparator(xs []float64) {
 	})
 }
 
-func OkComparator(xs []float64) {
+func OkComparator(in []float64) []float64 {
+	xs := make([]float64, len(in))
+	copy(xs, in)
 	sort.Slice(xs, func(i, j int) bool { return xs[i] < xs[j] })
+	return xs
 }
 
 // ---- SHR-1 / SHR-2
@@ -118,6 +121,44 @@ func OkUseFresh(p *Params) int {
 	l := okRegistry[0].BlankParams()
 	l.index++
 	return l.index
+}
+
+// ---- OWN-1 / OWN-2
+type State struct {
+	Items  []float64
+	Values map[string]float64
+}
+
+// seeded: overwrites an element of the caller's slice
+func BadInPlace(s *State) { s.Items[0] = 1 }
+
+func OkCopyThenWrite(s *State) []float64 {
+	c := make([]float64, len(s.Items))
+	copy(c, s.Items)
+	c[0] = 1
+	return c
+}
+
+// seeded: in-place deletion from the caller's slice
+func BadRemoveFirst(s *State) []float64 { return append(s.Items[:0], s.Items[1:]...) }
+
+// seeded: every iteration appends to the same base
+func BadForkedAppend(groups [][]string) [][]string {
+	var out [][]string
+	base := make([]string, 1, 8)
+	for _, g := range groups {
+		out = append(out, append(base, g...))
+	}
+	return out
+}
+
+func OkPerIterationBase(groups [][]string) [][]string {
+	var out [][]string
+	for _, g := range groups {
+		base := make([]string, 1, 8)
+		out = append(out, append(base, g...))
+	}
+	return out
 }
 
 // ---- E5: reference implementations (Spec_) and code that does / does not compute them
